@@ -243,13 +243,14 @@ impl<'a> CompilerState<'a> {
         let mut line_number: usize = 0;
         let mut char_number = 0;
         for c in self.preprocessed_utf8.chars() {
+            // Count the newlines among the first `loc` characters (none when loc is 0)
+            if char_number == loc {
+                break;
+            }
             if c == '\n' {
                 line_number += 1;
             }
             char_number += 1;
-            if char_number == loc {
-                break;
-            }
         }
         // A position at or past the end of the text maps to the last line
         let line_number = line_number.min(self.mapped_lines.len().saturating_sub(1));
@@ -269,13 +270,14 @@ impl<'a> CompilerState<'a> {
         let mut line_number: usize = 0;
         let mut char_number = 0;
         for c in self.preprocessed_utf8.chars() {
+            // Count the newlines among the first `loc` characters (none when loc is 0)
+            if char_number == loc {
+                break;
+            }
             if c == '\n' {
                 line_number += 1;
             }
             char_number += 1;
-            if char_number == loc {
-                break;
-            }
         }
         // A position at or past the end of the text maps to the last line
         let line_number = line_number.min(self.mapped_lines.len().saturating_sub(1));
@@ -295,13 +297,14 @@ impl<'a> CompilerState<'a> {
         let mut line_number: usize = 0;
         let mut char_number = 0;
         for c in self.preprocessed_utf8.chars() {
+            // Count the newlines among the first `loc` characters (none when loc is 0)
+            if char_number == loc {
+                break;
+            }
             if c == '\n' {
                 line_number += 1;
             }
             char_number += 1;
-            if char_number == loc {
-                break;
-            }
         }
         // A position at or past the end of the text maps to the last line
         let line_number = line_number.min(self.mapped_lines.len().saturating_sub(1));
